@@ -208,7 +208,13 @@ func c20RunSched(c C20Sched) (viol *pbt.Violation, branching []int) {
 		finish()
 		return pbt.V("harness:c20sched.noquiet", "harness", "the process does not become quiescent before the first step"), nil
 	}
+	began := time.Now()
 	for step := 0; ; step++ {
+		if time.Since(began) > 25*time.Second {
+			// a starved machine: every step waits for quiescence; give the case up long before the watchdog
+			finish()
+			return pbt.V("harness:c20sched.slow", "harness", "the case took more than 25 s (%d steps): the machine is too busy", step), branching
+		}
 		var enabled []int
 		for t := 0; t < nt; t++ {
 			if pc[t] >= len(c.Threads[t]) || parked(t) {
